@@ -189,9 +189,9 @@ macro_rules! av1_h {
 }
 //@ prop=C07,C12 tier_C12=quick tier=thorough cost=300 fns="codec::av1::extract_av1_config,parse_sequence_header,parse_color_config,BitReader,ObuIter::next,parse_obu_header,read_leb128" bound="all 5-byte sequence-header payloads (operating_points_cnt <= 2, seq_profile <= 2)" unwind=34 unwindset="muxide::codec::av1::parse_sequence_header.0:3,muxide::codec::av1::skip_uvlc.0:10" timeout=1400 mem=12 covers_optional="color_description|profile 2, 12|ordinary header"
 av1_h!(c07_av1_payload5, 5, 7);
-//@ prop=C07,C12 tier_C12=thorough tier=thorough cost=400 fns="codec::av1::extract_av1_config,parse_sequence_header,parse_color_config,BitReader" bound="all 7-byte sequence-header payloads (operating_points_cnt <= 2, seq_profile <= 2)" unwind=34 unwindset="muxide::codec::av1::parse_sequence_header.0:3,muxide::codec::av1::skip_uvlc.0:10" timeout=1400 mem=12 covers_optional="12 bit|ordinary header"
+//@ prop=C07,C12 tier_C12=thorough tier=quick cost=400 fns="codec::av1::extract_av1_config,parse_sequence_header,parse_color_config,BitReader" bound="all 7-byte sequence-header payloads (operating_points_cnt <= 2, seq_profile <= 2)" unwind=34 unwindset="muxide::codec::av1::parse_sequence_header.0:3,muxide::codec::av1::skip_uvlc.0:10" timeout=1400 mem=12 covers_optional="12 bit|ordinary header"
 av1_h!(c07_av1_payload7, 7, 9);
-//@ prop=C07,C12 tier=quick tier_C12=thorough cost=900 fns="codec::av1::extract_av1_config,parse_sequence_header,parse_color_config,BitReader" bound="all 10-byte sequence-header payloads" unwind=34 unwindset="muxide::codec::av1::parse_sequence_header.0:3,muxide::codec::av1::skip_uvlc.0:10" timeout=3000 mem=12
+//@ prop=C07,C12 tier=thorough tier_C12=thorough cost=900 fns="codec::av1::extract_av1_config,parse_sequence_header,parse_color_config,BitReader" bound="all 10-byte sequence-header payloads" unwind=34 unwindset="muxide::codec::av1::parse_sequence_header.0:3,muxide::codec::av1::skip_uvlc.0:10" timeout=3000 mem=12
 av1_h!(c07_av1_payload10, 10, 12);
 //@ prop=C07,C12 tier=thorough cost=1500 fns="codec::av1::extract_av1_config,parse_sequence_header,parse_color_config,skip_uvlc,BitReader" bound="all 13-byte sequence-header payloads (timing_info reachable)" unwind=34 unwindset="muxide::codec::av1::parse_sequence_header.0:3,muxide::codec::av1::skip_uvlc.0:10" timeout=3000 mem=30
 av1_h!(c07_av1_payload13, 13, 15);
